@@ -168,6 +168,57 @@ def malformed_variants(rng, g):
     return None
 
 
+def mutate_bytes(rng, raw: bytes) -> bytes:
+    b = bytearray(raw)
+    k = rng.random()
+    if k < 0.25:
+        return bytes(b[:rng.randrange(0, len(b))])                       # truncation at any offset
+    if k < 0.5:
+        i = rng.randrange(32, len(b)) if len(b) > 32 else 0
+        b[i] ^= 1 << rng.randrange(8)                                    # bit flip behind the branch
+        return bytes(b)
+    if k < 0.65:
+        i = rng.randrange(32, len(b) + 1)
+        b[i:i] = bytes([rng.choice([0, 0x80, 0xff, rng.getrandbits(8)])])  # insertion
+        return bytes(b)
+    if k < 0.8 and len(b) > 33:
+        del b[rng.randrange(32, len(b))]                                 # deletion
+        return bytes(b)
+    if k < 0.9:
+        return bytes(b) + bytes([rng.choice([0, 108, 17, 255])])         # extension
+    i = rng.randrange(32, len(b)) if len(b) > 32 else 0
+    b[i] = rng.choice([0, 1, 2, 3, 4, 0x7f, 0x80, 0xff])                 # tag / length / bool positions
+    return bytes(b)
+
+
+def malformed_stream(ctx, raws):
+    """Malformed stream: mutated forged bytes are read by the Coq spec decoder and by the independent Python reader; they must
+    agree on acceptance, and an accepted string must re-encode to itself (C06_decoder_strict).  pytezos has no operation
+    decoder, so this validates the *spec* (both readers are the checker's own): a disagreement is a checker inconsistency."""
+    rng = ctx.rng.__class__(f'{ctx.seed}:malformed')
+    n = ctx.n(300, 4000)
+    cases, muts = [], []
+    pool = [r for r in raws if len(r) < 700] or raws
+    while len(cases) < n and pool:
+        m = mutate_bytes(rng, rng.choice(pool))
+        try:
+            S.decode_group(m)
+            acc = True
+        except S.Bad:
+            acc = False
+        except Exception as e:  # noqa: BLE001
+            raise lib.InternalError(f'independent reader crashed on {m.hex()}: {e!r}')
+        ctx.case(m.hex(), nontrivial=True, kind=f"malformed:{'accepted' if acc else 'rejected'}")
+        cases.append((chex(m), f'({lib.cbool(acc)}, true)'))
+        muts.append(m)
+    bad = ctx.coq_mismatches('malformed', IMPORTS,
+                             'fun bs => match dec_group bs with Some g => (true, bytes_eqb (enc_group g) bs) | None => (false, true) end',
+                             'prod_eqb Bool.eqb Bool.eqb', 'bytes', 'bool * bool', cases, shard=ctx.n(100, 200))
+    ctx.extra['malformed_cases'] = len(cases)
+    if bad:
+        raise lib.InternalError(f'spec decoder (Coq) and independent reader (Python) disagree on {muts[bad[0]].hex()} ({len(bad)} cases)')
+
+
 def recorded_groups():
     """recorded mainnet operations in /repo/tests with their recorded hashes"""
     out = []
@@ -195,6 +246,7 @@ def run(ctx: lib.Ctx) -> None:
     import concurrent.futures
     pool = concurrent.futures.ThreadPoolExecutor(max_workers=1)
     fut_tables = pool.submit(tables, ctx)   # coqc on the tables runs while the implementation is exercised
+    pool2 = concurrent.futures.ThreadPoolExecutor(max_workers=1)
 
     groups = []
     for p in sorted(glob.glob(os.path.join(lib.VERIF, 'corpus', PROP, '*.json'))):
@@ -229,7 +281,7 @@ def run(ctx: lib.Ctx) -> None:
                 ctx.violation(f'forge_operation_group raised {type(raw).__name__}: {raw} on a well-formed group', replay_doc(g, None), found=True)
             continue
         wfx = wf_expected(g)
-        cases.append((c_group(g), f'({chex(raw)}, true, true, {lib.cbool(wfx)})'))
+        cases.append((c_group(g), f'({chex(raw)}, true, {lib.cbool(wfx)}, {lib.cbool(wfx)})'))
         meta.append((origin, g, raw))
         # ---- (B) independent decode + collision check
         why = None
@@ -258,7 +310,10 @@ def run(ctx: lib.Ctx) -> None:
             ctx.violation(why, replay_doc(g, raw), found=True)
     ctx.extra['recorded_mainnet_groups'] = [n for n, _ in recorded]
 
+    fut_mal = pool2.submit(malformed_stream, ctx, [m[2] for m in meta])
     bad = ctx.coq_mismatches('groups', IMPORTS, 'check_group', 'check_eqb', 'group', 'bytes * bool * bool * bool', cases, shard=ctx.n(70, 120))
+    fut_mal.result()
+    pool2.shutdown()
     problems = fut_tables.result()
     pool.shutdown()
     if reported == 0 and (bad or problems):
